@@ -366,6 +366,24 @@ def check_many(ctx, fi):
             v = s.value
             ok = U(s.targets[0].slice) == p and isinstance(v, ast.Call) and isinstance(v.func, ast.Attribute) \
                 and v.func.attr == 'project' and len(v.args) == 1 and U(v.args[0]) == p
+            if not ok and U(s.targets[0].slice) == p and isinstance(v, ast.Call) and isinstance(v.func, ast.Attribute) and v.func.attr == 'transpose' \
+                    and len(v.args) == 1 and isinstance(v.func.value, ast.Subscript) and isinstance(v.func.value.slice, ast.Name):
+                # an exact hit: the table stored under the request's own attributes in domain order, laid out as requested
+                K = v.func.value.slice.id
+                kdef = [a.value for a in ast.walk(loops[0]) if isinstance(a, ast.Assign) and len(a.targets) == 1 and U(a.targets[0]) == K]
+                guard = getattr(s, '_parent', None)
+                conj = []
+                if isinstance(guard, ast.If) and s in guard.body:
+                    conj = [U(c).replace(' ', '') for c in (guard.test.values if isinstance(guard.test, ast.BoolOp) and isinstance(guard.test.op, ast.And) else [guard.test])]
+                same_set = len(kdef) == 1 and U(kdef[0]).replace(' ', '') == 'self.domain.canonical(%s)' % p and \
+                    ('len(%s)==len(%s)' % (K, p) in conj or 'len(%s)==len(%s)' % (p, K) in conj or 'set(%s)==set(%s)' % (K, p) in conj)
+                present = '%sin%s' % (K, U(v.func.value.value)) in conj
+                if not (same_set and present):
+                    raise AnalysisError('calculate_many_marginals: `%s` - whether the table under `%s` is over exactly the requested attributes is not recognised' % (U(s)[:70], K))
+                okt = U(v.args[0]) == p
+                ctx.ob('requested-order', fi, s, okt, 'a request whose attributes are exactly those of a stored table is answered by that table laid out as requested; '
+                       'the source transposes it to `%s`%s' % (U(v.args[0]), '' if okt else ' - the DOMAIN order, not the order asked for'))
+                continue
             ctx.ob('requested-order', fi, s, ok, 'each requested projection is answered under its own key through .project(%s)' % p)
     ctx.floor('answer stores in calculate_many_marginals', n, 1)
     inits = [s_ for s_ in fi.body if isinstance(s_, ast.Assign) and len(s_.targets) == 1 and U(s_.targets[0]) == answers
